@@ -61,27 +61,27 @@ type HistText struct {
 
 // GoVal describes one plain Go value for the bridge check.
 type GoVal struct {
-	K string   `json:"k"` // nil bool int int8 int16 int32 int64 uint uint8 uint16 uint32 uint64 float32 float64 string time slice map
-	B bool     `json:"b,omitempty"`
-	S string   `json:"s,omitempty"` // integers and floats as decimal text, strings, time RFC3339Nano
-	A []*GoVal `json:"a,omitempty"`
+	K    string   `json:"k"` // nil bool int int8 int16 int32 int64 uint uint8 uint16 uint32 uint64 float32 float64 string time slice map
+	B    bool     `json:"b,omitempty"`
+	S    string   `json:"s,omitempty"` // integers and floats as decimal text, strings, time RFC3339Nano
+	A    []*GoVal `json:"a,omitempty"`
 	Keys []string `json:"keys,omitempty"`
 }
 
 // Case is one monitored scenario.
 type Case struct {
-	Kind  string   `json:"kind"` // text native path bridge
-	Doc   *Node    `json:"doc,omitempty"`
-	Fmt   string   `json:"fmt,omitempty"` // json | sen (format of Text)
-	Text  string   `json:"text,omitempty"`
-	Entry string   `json:"entry,omitempty"` // how the text gets into a bag
-	W     *WOpts   `json:"w,omitempty"`
-	Time  *TimeCfg `json:"time,omitempty"`
-	Ops   []Op     `json:"ops,omitempty"`
-	Via   string   `json:"via,omitempty"` // native: how the native form goes back; bridge: which bridge
-	Go    *GoVal   `json:"go,omitempty"`
+	Kind  string     `json:"kind"` // text native path bridge
+	Doc   *Node      `json:"doc,omitempty"`
+	Fmt   string     `json:"fmt,omitempty"` // json | sen (format of Text)
+	Text  string     `json:"text,omitempty"`
+	Entry string     `json:"entry,omitempty"` // how the text gets into a bag
+	W     *WOpts     `json:"w,omitempty"`
+	Time  *TimeCfg   `json:"time,omitempty"`
+	Ops   []Op       `json:"ops,omitempty"`
+	Via   string     `json:"via,omitempty"` // native: how the native form goes back; bridge: which bridge
+	Go    *GoVal     `json:"go,omitempty"`
 	Texts []HistText `json:"texts,omitempty"`
-	Probe string   `json:"probe,omitempty"` // name of the deterministic probe block the case belongs to
+	Probe string     `json:"probe,omitempty"` // name of the deterministic probe block the case belongs to
 }
 
 // ---------------------------------------------------------------- scalar pools
@@ -125,20 +125,20 @@ var floatLits = []string{"0.5", "-1.25", "0.1", "2.5", "3.141592653589793", "1.5
 var integralFloatLits = []string{"2.0", "1e2", "1E+2", "-3.0", "0.0", "-0.0", "1e15", "1.0e0", "100.0", "9007199254740992.0", "1e22", "12e0", "5E0"}
 
 type profile struct {
-	maxDepth     int
-	big          bool // integers outside int64 / long decimals
-	minInt       bool // -2^63 and 2^63-1 (parsed as big numbers by the real code)
-	special      bool // strings that look like tokens
-	oddKeys      bool
-	integralF    bool
-	falseVal     bool
-	emptyC       bool
-	times        bool
-	nullVal      bool
-	control      bool // control characters in strings
-	longFloats   bool // floats with 18 or more fraction digits (the parser keeps them as text)
-	smallInts    bool // integers below 10^12 only (nano time format: large integers are read as times)
-	maxWidth     int
+	maxDepth   int
+	big        bool // integers outside int64 / long decimals
+	minInt     bool // -2^63 and 2^63-1 (parsed as big numbers by the real code)
+	special    bool // strings that look like tokens
+	oddKeys    bool
+	integralF  bool
+	falseVal   bool
+	emptyC     bool
+	times      bool
+	nullVal    bool
+	control    bool // control characters in strings
+	longFloats bool // floats with 18 or more fraction digits (the parser keeps them as text)
+	smallInts  bool // integers below 10^12 only (nano time format: large integers are read as times)
+	maxWidth   int
 }
 
 func randString(r *rand.Rand, p *profile) string {
@@ -440,7 +440,7 @@ func probeScalars() []probeScalar {
 
 var (
 	pScalars    = probeScalars()
-	textEntries = []string{"make-bag", "make-instance", "bag-parse", "send-parse", "json-parse", "json-parse-strict", "bag-read", "init-read", "make-bag-octets", "discover"}
+	textEntries = []string{"make-bag", "make-instance", "bag-parse", "send-parse", "json-parse", "json-parse-strict", "bag-read", "init-read", "make-bag-octets"}
 )
 
 // text probe i: scalar s (as array element, object value and, for strings,
@@ -816,6 +816,11 @@ func randHistory(r *rand.Rand, doc *Node, n int, rich bool, dirty bool) []Op {
 		case x < 14:
 			op.Op = "remove"
 			op.Path = randPath(r, cur, dirty)
+			for try := 0; try < 4 && 1 < len(op.Path) && op.Path[len(op.Path)-2].K == "descent"; try++ {
+				// remove is a modification of the matches of the path without its
+				// last fragment; "..x" has no such set and is always rejected
+				op.Path = randPath(r, cur, dirty)
+			}
 			if res, st, _, _ := modelRemove(cur, op.Path); st == stOK && res.isContainer() {
 				cur = res
 			}
@@ -883,7 +888,7 @@ var probePaths = []Path{
 	{fChild("k k")}, {fChild("o"), fChild("p")}, {fChild("o"), fChild("p"), fChild("q")}, {fChild("o"), fChild("p"), fNth(1)},
 	{fChild("o"), fChild("p"), fNth(-1)}, {fChild("o"), fChild("p"), fNth(1), fChild("q")}, {fChild("o"), fChild("p"), fWild()},
 	{fChild("new")}, {fChild("new"), fChild("n2"), fChild("n3")}, {fNth(0)}, {fWild()}, {fChild("zz"), fChild("y")},
-	{fChild("o"), fWild()}, {fChild("o"), fNth(0)}, {fChild("u")}, {fChild("a"), fNth(1)}, {fChild("w")}, {fChild("w"), fChild("x")},
+	{fChild("o"), fWild()}, {fChild("o"), fNth(0)}, {fChild("u")}, {fChild("o")}, {fChild("b")}, {fChild("a"), fNth(1)}, {fChild("w")}, {fChild("w"), fChild("x")},
 	{fChild("w"), fNth(0)}, {fChild("h"), fWild(), fChild("k"), fChild("deep")}, {fChild("h"), fWild(), fChild("nokey"), fChild("deep")},
 	{fDescent(), fChild("c"), fChild("d")}, {fDescent(), fChild("c"), fChild("nokey")},
 }
@@ -1029,7 +1034,7 @@ func genHist(r *rand.Rand, i int) Case {
 
 type layout struct {
 	textProbes, nativeProbes, bridgeProbes, pathProbes, histProbes int
-	random                                              int
+	random                                                         int
 }
 
 func layoutFor(tier string) layout {
@@ -1108,7 +1113,16 @@ func genText(r *rand.Rand, depth int, i int) Case {
 		p.times, p.oddKeys, p.special, p.big, p.minInt = true, false, false, false, false
 		p.smallInts = tc.Format == "nano"
 	}
+	// discover-json finds arrays and objects in prose with a simplified
+	// scanner: it gets plain JSON documents only
+	discover := (i/10)%8 == 5
+	if discover {
+		p.oddKeys, p.control, p.special, p.big = false, false, false, false
+	}
 	doc := randDoc(r, p, 1+r.IntN(depth))
+	if discover {
+		doc = randContainerDoc(r, p, 1+r.IntN(depth))
+	}
 	if tc != nil && !doc.has(func(n *Node) bool { return n.K == kTime }) {
 		doc = nArr(doc, randTime(r))
 	}
@@ -1124,13 +1138,16 @@ func genText(r *rand.Rand, depth int, i int) Case {
 		})
 	}
 	c := Case{Kind: "text", Doc: doc, W: randWOpts(r), Time: tc}
-	sen := r.IntN(2) == 0
+	sen := r.IntN(2) == 0 && !discover
 	c.Fmt = "json"
 	if sen {
 		c.Fmt = "sen"
 	}
-	c.Text = renderTextTime(r, doc, sen, false, tc)
+	c.Text = renderTextTime(r, doc, sen, discover, tc)
 	c.Entry = fw.Pick(r, textEntries)
+	if discover {
+		c.Entry = "discover"
+	}
 	if c.Entry == "json-parse-strict" && sen {
 		c.Entry = "json-parse"
 	}
@@ -1138,10 +1155,6 @@ func genText(r *rand.Rand, depth int, i int) Case {
 		// json-parse and discover-json hand out the parsed data as it is; only
 		// the bag-* entry points apply *bag-time-format*
 		c.Entry = fw.Pick(r, []string{"make-bag", "make-bag-octets", "make-instance", "bag-parse", "send-parse", "bag-read", "init-read"})
-	}
-	if c.Entry == "discover" && (!doc.isContainer() || sen) {
-		// discover-json looks for arrays and objects with a simplified scanner
-		c.Entry = "make-bag"
 	}
 	if dirty {
 		c.Probe = "dirty"
